@@ -44,3 +44,59 @@ package models
 //@   assigns \nothing
 //@   loop 0 invariant forall(k, 0, rangeindex + 1, n.Slices[k].Name != n.DefaultSlice)
 //@   ensures case loads: ret0 == nil ==> exists(k, 0, len(n.Slices), n.Slices[k].Name == n.DefaultSlice)
+
+// ---------------------------------------------------------------- C33 stored configurations stay inside the storage area
+// safeJoinPath: a path is accepted only as its cleaned, root-relative form, and only if that form does not climb out of the
+// storage directory (not "..", no leading "../", no "/../" inside), has no forbidden character and at most 1024 bytes.
+// The path functions of the standard library are uninterpreted (trusted): the contract fixes WHICH form is checked and returned.
+//@ pure isAbsP(p string) bool
+//@ pure relP(p string) string
+//@ pure cleanP(p string) string
+//@ pure hasPrefixS(s string, pre string) bool
+//@ pure containsS(s string, sub string) bool
+//@ pure containsAnyS(s string, chars string) bool
+//@ trusted path/filepath.IsAbs
+//@   params path
+//@   pure-call
+//@   ensures ret0 == isAbsP(path)
+//@ trusted path/filepath.Rel
+//@   params basepath, targpath
+//@   pure-call
+//@   ensures ret1 == nil && basepath == "/" ==> ret0 == relP(targpath)
+//@ trusted path/filepath.Clean
+//@   params path
+//@   pure-call
+//@   ensures ret0 == cleanP(path)
+//@ trusted strings.HasPrefix
+//@   params s, prefix
+//@   pure-call
+//@   ensures ret0 == hasPrefixS(s, prefix)
+//@ trusted strings.Contains
+//@   params s, substr
+//@   pure-call
+//@   ensures ret0 == containsS(s, substr)
+//@ trusted strings.ContainsAny
+//@   params s, chars
+//@   pure-call
+//@   ensures ret0 == containsAnyS(s, chars)
+//@ pure normP(p string) string = cleanP(ite(isAbsP(p), relP(p), p))
+//@ property C33: (*LocalClient).safeJoinPath
+//@ func (*LocalClient).safeJoinPath
+//@   assigns \nothing
+//@   ensures case form:     ret1 == nil ==> ret0 == normP(path) && path != ""
+//@   ensures case inside:   ret1 == nil ==> ret0 != ".." && !hasPrefixS(ret0, "../") && !containsS(ret0, "/../")
+//@   ensures case charset:  ret1 == nil ==> !containsAnyS(ret0, "<>\"|?*")
+//@   ensures case length:   ret1 == nil ==> slen(ret0) <= 1024
+//@   ensures case rejected: ret1 != nil ==> ret0 == ""
+//@ pure joinP(a string, b string) string
+//@ trusted path/filepath.Join
+//@   params elem
+//@   pure-call
+//@   ensures len(elem) == 2 ==> ret0 == joinP(elem[0], elem[1])
+// the file a namespace is stored in: the storage directory joined with the accepted relative path, plus the file suffix
+//@ property C33: (*LocalClient).FullNamespacePath
+//@ func (*LocalClient).FullNamespacePath
+//@   requires lc != nil
+//@   assigns \nothing
+//@   ensures case inside:   ret1 == nil ==> normP(path) != ".." && !hasPrefixS(normP(path), "../") && !containsS(normP(path), "/../") && !containsAnyS(normP(path), "<>\"|?*") && slen(normP(path)) <= 1024
+//@   ensures case rejected: ret1 != nil ==> ret0 == ""
